@@ -16,6 +16,12 @@ access ids, run from the state after `HIstart`, with any ids as arguments (live,
   an id succeeds while another id keeps the file open, the later `Hendaccess` fails on the dead file id without `attach--` and
   the file can never be closed again: `close_under_aid_leaks_attach`; `attach_eq_live_aids_plus_leaked` is the statement that
   holds for both configurations.
+* `cfg.spPerFileId` (generated too, from `HPcompare_accrec_tagref`): the special information of an element — and the access
+  elements that information holds ITSELF (chunk-table Vdata of a chunked element, data element of a compressed one) — is shared
+  between the access records of ONE file id only.  Section "special elements": histories with such elements are histories of
+  the H calls above (`spRun_is_history`), so every invariant holds for them; with the flag every order of release over two ids
+  of one file is balanced (`shared_chunk_info_release_orders`); without it (`share_across_ids_blocks_close`) the information's
+  own access element stays attached through the first id after the caller has ended everything it started through that id.
 * atom ids are not reissued as long as fewer than 2^28 file ids were handed out (`H4.Props.C13`: `make_atom_wraps`); the attach
   theorem carries that bound, the others do not need it. -/
 namespace H4.Props.C13Files
@@ -23,7 +29,7 @@ open H4.Handles H4.Gen.Atom H4.Gen.Hdf H4.Gen.Macros
 open H4.Atom (group_MAKE_ATOM Info)
 
 /-- the current source checks the kind of every id at the H entry points -/
-theorem current_checked : Cfg.current.kindChecked = true ∧ Cfg.current.closeChecksAids = true := by decide
+theorem current_checked : Cfg.current.kindChecked = true ∧ Cfg.current.closeChecksAids = true ∧ Cfg.current.spPerFileId = true := by decide
 
 /-- state after a history -/
 abbrev after (cfg : Cfg) (ops : List Op) : World := run cfg World.init ops
@@ -202,7 +208,7 @@ def fid (k : Nat) : Nat := MAKE_ATOM FIDGROUP k
 def aid (k : Nat) : Nat := MAKE_ATOM AIDGROUP k
 
 /-- nested opens of one path, an access element, close refused while it is attached, then full teardown -/
-example : results ⟨true, true⟩ World.init [.hopen 7 DFACC_READ true, .hopen 7 DFACC_RDWR true, .startaccess (fid 1) true true,
+example : results ⟨true, true, true⟩ World.init [.hopen 7 DFACC_READ true, .hopen 7 DFACC_RDWR true, .startaccess (fid 1) true true,
       .hclose (fid 0), .hclose (fid 1), .useaid (aid 0), .endaccess (aid 0), .endaccess (aid 0), .hclose (fid 1), .usefid (fid 1),
       .hopen 7 DFACC_READ true]
     = [.id (fid 0), .id (fid 1), .id (aid 0), .ok, .fail, .ok, .ok, .fail, .ok, .fail, .id (fid 2)] := by decide
@@ -210,7 +216,7 @@ example : results ⟨true, true⟩ World.init [.hopen 7 DFACC_READ true, .hopen 
 /-- `close_under_aid_refused`: two ids of one file; an access element is started through the first; `Hclose` of the FIRST id is
     REFUSED (the element must be ended first) and everything stays usable; after `Hendaccess` both ids close. -/
 theorem close_under_aid_refused :
-    results ⟨true, true⟩ World.init [.hopen 7 DFACC_READ true, .hopen 7 DFACC_READ true, .startaccess (fid 0) true false, .hclose (fid 0),
+    results ⟨true, true, true⟩ World.init [.hopen 7 DFACC_READ true, .hopen 7 DFACC_READ true, .startaccess (fid 0) true false, .hclose (fid 0),
       .useaid (aid 0), .endaccess (aid 0), .hclose (fid 0), .hclose (fid 1)]
       = [.id (fid 0), .id (fid 1), .id (aid 0), .fail, .ok, .ok, .ok, .ok] := by decide
 
@@ -218,19 +224,136 @@ theorem close_under_aid_refused :
     `ids-close-under-aid-leaks-attach`): `Hclose` of the first id succeeds (the second keeps the file open); the later
     `Hendaccess` FAILS (its file id is dead) and does not decrement `attach`; the last `Hclose` then fails for ever. -/
 theorem close_under_aid_leaks_attach :
-    results ⟨true, false⟩ World.init [.hopen 7 DFACC_READ true, .hopen 7 DFACC_READ true, .startaccess (fid 0) true false, .hclose (fid 0),
+    results ⟨true, false, true⟩ World.init [.hopen 7 DFACC_READ true, .hopen 7 DFACC_READ true, .startaccess (fid 0) true false, .hclose (fid 0),
       .endaccess (aid 0), .hclose (fid 1), .hclose (fid 1)]
       = [.id (fid 0), .id (fid 1), .id (aid 0), .ok, .fail, .fail, .fail] ∧
-    (run ⟨true, false⟩ World.init [.hopen 7 DFACC_READ true, .hopen 7 DFACC_READ true, .startaccess (fid 0) true false, .hclose (fid 0),
+    (run ⟨true, false, true⟩ World.init [.hopen 7 DFACC_READ true, .hopen 7 DFACC_READ true, .startaccess (fid 0) true false, .hclose (fid 0),
       .endaccess (aid 0)]).leaked = [1] := by decide
 
 /-- without the kind test an access id given to `Hclose` (or a file id given to `Hendaccess`) is resolved and its object would be
     read as the wrong record type; with the test both calls FAIL -/
 theorem unchecked_kind_confuses :
-    results ⟨false, true⟩ World.init [.hopen 7 DFACC_READ true, .startaccess (fid 0) true false, .hclose (aid 0), .endaccess (fid 0)]
+    results ⟨false, true, true⟩ World.init [.hopen 7 DFACC_READ true, .startaccess (fid 0) true false, .hclose (aid 0), .endaccess (fid 0)]
       = [.id (fid 0), .id (aid 0), .confused, .confused] ∧
-    results ⟨true, true⟩ World.init [.hopen 7 DFACC_READ true, .startaccess (fid 0) true false, .hclose (aid 0), .endaccess (fid 0)]
+    results ⟨true, true, true⟩ World.init [.hopen 7 DFACC_READ true, .startaccess (fid 0) true false, .hclose (aid 0), .endaccess (fid 0)]
       = [.id (fid 0), .id (aid 0), .fail, .fail] := by decide
+
+/-! ## special elements: information records that hold access elements of their own (`H4.Handles.spStep`) -/
+
+theorem run_append (cfg : Cfg) (w : World) (a b : List Op) : run cfg w (a ++ b) = run cfg (run cfg w a) b := by
+  induction a generalizing w with
+  | nil => rfl
+  | cons op t ih => simp only [List.cons_append, run]; exact ih _
+
+/-- `spRun_is_history`: whatever special elements a history touches (chunked, compressed, linked, with the access elements their
+    information records start and end on their own), the file table it leaves is the one left by a history of plain
+    `Hopen / Hclose / Hstartaccess / Hendaccess` calls — the calls the special code makes, in its order (`expandAll`). -/
+theorem spRun_is_history (cfg : Cfg) (sw : SpWorld) (sops : List SpOp) :
+    (spRun cfg sw sops).w = run cfg sw.w (expandAll cfg sw sops) := by
+  induction sops generalizing sw with
+  | nil => rfl
+  | cons op t ih =>
+    simp only [spRun, expandAll, run_append]
+    rw [ih]
+    rfl
+
+/-- state of the file table after a history with special elements -/
+abbrev afterSp (cfg : Cfg) (sops : List SpOp) : World := (spRun cfg SpWorld.init sops).w
+
+/-- `sp_histories_keep_invariants`: … hence for ALL histories with special elements, any ids, any order of release: the reference
+    count of every file record is the number of its live file ids, its attach counter is EXACTLY the number of access records
+    attached to it — the caller's and the ones the special information holds — every one of them has exactly one live access
+    id and was started through a file id that is still live, nothing is leaked, and once every id is released the table is the
+    initial one (no state is retained that affects a later `Hopen`). -/
+theorem sp_histories_keep_invariants (cfg : Cfg) (hk : cfg.kindChecked = true) (hc : cfg.closeChecksAids = true) (sops : List SpOp)
+    (hn : (expandAll cfg SpWorld.init sops).length < 2 ^ 28) :
+    (∀ e ∈ (afterSp cfg sops).frecs, e.2.refcount = (liveFids (afterSp cfg sops)).countP (fun i => i.obj == e.1) ∧
+        e.2.attach = (afterSp cfg sops).arecs.countP (fun a => a.2.file == e.1)) ∧
+    (∀ a ∈ (afterSp cfg sops).arecs, (liveAids (afterSp cfg sops)).countP (fun i => i.obj == a.1) = 1 ∧
+        ∃ i ∈ liveFids (afterSp cfg sops), i.id = a.2.fileId) ∧
+    (afterSp cfg sops).leaked = [] ∧
+    (liveFids (afterSp cfg sops) = [] → liveAids (afterSp cfg sops) = [] →
+        (afterSp cfg sops).frecs = [] ∧ (afterSp cfg sops).arecs = []) := by
+  have e : afterSp cfg sops = after cfg (expandAll cfg SpWorld.init sops) := spRun_is_history cfg SpWorld.init sops
+  rw [e]
+  have h1 := refcount_eq_live_fids cfg hk (expandAll cfg SpWorld.init sops)
+  have h2 := attach_eq_live_aids cfg hk hc (expandAll cfg SpWorld.init sops) hn
+  have h3 := no_attach_lost cfg hk hc (expandAll cfg SpWorld.init sops) hn
+  refine ⟨fun e he => ⟨(h1 e he).1, h2.1 e he⟩, fun a ha => ⟨h2.2 a ha, h3.2 a ha⟩, h3.1, fun hf ha => ?_⟩
+  exact full_teardown_is_init cfg hk (expandAll cfg SpWorld.init sops) hf ha
+
+/-- the access elements an information record starts itself go through the file id of the `Hstartaccess` call that read it -/
+theorem expand_start_through_callers_id (cfg : Cfg) (sw : SpWorld) (id elem : Nat) (kind : SpKind) (found write : Bool) :
+    ∀ op ∈ expand cfg sw (.startsp id elem kind found write), ∃ f w, op = .startaccess id f w := by
+  intro op hop
+  simp only [expand] at hop
+  split at hop
+  · split at hop
+    · simp only [List.mem_singleton] at hop; exact ⟨_, _, hop⟩
+    · simp only [List.mem_append, List.mem_replicate, List.mem_singleton] at hop
+      rcases hop with ⟨_, h⟩ | h <;> exact ⟨_, _, h⟩
+  · simp only [List.mem_singleton] at hop; exact ⟨_, _, hop⟩
+
+/- FULL STATEMENT, NOT PROVED (the two theorems below are its instances on the histories the seeded regression c13d needs; the
+   engine checks it on the implementation with the keys ids-close-refused-without-own-aid / ids-state-retained-after-release):
+
+     theorem inner_held_through_a_users_file_id (cfg) (hk : cfg.kindChecked) (hp : cfg.spPerFileId) (sops : List SpOp)
+         (polite : no `.endsp a` / `.prim (.endaccess a)` of the history names an id of some `g.inner` of the state it is run in) :
+       ∀ g ∈ (spRun cfg SpWorld.init sops).infos, g.users ≠ [] ∧
+         ∀ x ∈ g.users ++ g.inner, ∃ q a, lookA cfg (spRun cfg SpWorld.init sops).w x = .acc q a ∧ a.fileId = g.fileId
+
+   i.e. an access element the library holds itself is always attached through a file id through which the CALLER has one
+   attached (so `Hclose` of an id is refused only for elements of the caller), and when the caller has ended all of its own,
+   none of the library's is left.  Missing: uniqueness of access ids across information records (freshness of `aidNew` against
+   every recorded id) carried through `List.modify` / `eraseIdx` of `updInfos`. -/
+
+/-- the chunked element 6 of a file opened twice (ids `fid 0`, `fid 1`), one access element through each id, plus a second one
+    through the first id that SHARES the information (attach 2 + 1 + 2 = 5: two chunk-table Vdatas, three records of the caller).
+    Every `Hclose` is refused exactly while the CALLER has an access element attached through that id, every `Hendaccess`
+    succeeds in either order, the counters return to 0, both ids close, and `Hopen(DFACC_CREATE)` of the path succeeds. -/
+theorem shared_chunk_info_release_orders :
+    spResults ⟨true, true, true⟩ SpWorld.init
+      [.prim (.hopen 7 DFACC_READ true), .prim (.hopen 7 DFACC_READ true),
+       .startsp (fid 0) 6 .chunked true false, .startsp (fid 1) 6 .chunked true false, .startsp (fid 0) 6 .chunked true false,
+       -- first opened, first ended
+       .endsp (aid 1), .prim (.hclose (fid 0)), .endsp (aid 4), .prim (.hclose (fid 0)), .prim (.hclose (fid 1)),
+       .endsp (aid 3), .prim (.hclose (fid 1)), .prim (.hopen 7 DFACC_CREATE true)]
+      = [.id (fid 0), .id (fid 1), .id (aid 1), .id (aid 3), .id (aid 4),
+         .ok, .fail, .ok, .ok, .fail, .ok, .ok, .id (fid 2)] ∧
+    spResults ⟨true, true, true⟩ SpWorld.init
+      [.prim (.hopen 7 DFACC_READ true), .prim (.hopen 7 DFACC_READ true),
+       .startsp (fid 0) 6 .chunked true false, .startsp (fid 1) 6 .chunked true false,
+       -- last opened, first ended
+       .endsp (aid 3), .prim (.hclose (fid 1)), .prim (.hclose (fid 0)), .endsp (aid 1), .prim (.hclose (fid 0)),
+       .prim (.hopen 7 DFACC_CREATE true)]
+      = [.id (fid 0), .id (fid 1), .id (aid 1), .id (aid 3), .ok, .ok, .fail, .ok, .ok, .id (fid 2)] ∧
+    ((spRun ⟨true, true, true⟩ SpWorld.init
+      [.prim (.hopen 7 DFACC_READ true), .prim (.hopen 7 DFACC_READ true),
+       .startsp (fid 0) 6 .chunked true false, .startsp (fid 1) 6 .chunked true false, .startsp (fid 0) 6 .chunked true false]).w.frecs.map
+        (·.2.attach)) = [5] := by decide
+
+/-- `share_across_ids_blocks_close` (a source whose `HPcompare_accrec_tagref` does not compare the file ids, `spPerFileId = false`;
+    engine keys `ids-close-refused-without-own-aid`, `ids-state-retained-after-release`): the access element started through the
+    second id shares the information read through the first (attach 3, not 4).  When the caller has ended everything it started
+    through the FIRST id, `Hclose` of that id is still refused: the information's own access element is attached through it and
+    lives as long as the other id's access element does. -/
+theorem share_across_ids_blocks_close :
+    spResults ⟨true, true, false⟩ SpWorld.init
+      [.prim (.hopen 7 DFACC_READ true), .prim (.hopen 7 DFACC_READ true),
+       .startsp (fid 0) 6 .chunked true false, .startsp (fid 1) 6 .chunked true false,
+       .endsp (aid 1), .prim (.hclose (fid 0))]
+      = [.id (fid 0), .id (fid 1), .id (aid 1), .id (aid 2), .ok, .fail] ∧
+    -- … with the test the same calls end with a successful close
+    spResults ⟨true, true, true⟩ SpWorld.init
+      [.prim (.hopen 7 DFACC_READ true), .prim (.hopen 7 DFACC_READ true),
+       .startsp (fid 0) 6 .chunked true false, .startsp (fid 1) 6 .chunked true false,
+       .endsp (aid 1), .prim (.hclose (fid 0))]
+      = [.id (fid 0), .id (fid 1), .id (aid 1), .id (aid 3), .ok, .ok] := by decide
+
+/-- a compressed element: the information is private to the access record, each holds one access element of its own -/
+example : (spRun ⟨true, true, true⟩ SpWorld.init
+      [.prim (.hopen 7 DFACC_READ true), .startsp (fid 0) 4 .comp true false, .startsp (fid 0) 4 .comp true false]).w.frecs.map
+        (·.2.attach) = [4] := by decide
 
 /-! ## SD ids: id = slot << 20 | kind << 16 | index, on the expressions extracted from `mfsd.c` (`H4.Gen.Src`) -/
 
